@@ -57,7 +57,18 @@ func init() {
 		Race:        func(string) bool { return true },
 		InChild:     func(string) int { return 2 },
 		CaseTimeout: 460 * time.Second,
-		ChildSetup:  func() { installPointHooks(true) },
+		ChildSetup: func() {
+			installPointHooks(true)
+			// a scenario may hold the goroutines of ITS connection at named points for a moment (the points sit where the
+			// code can be descheduled anyway)
+			pointSink.Store(func(c *websocket.Conn, name string) {
+				if v, ok := c05Hold.Load(c); ok {
+					if d := v.(map[string]time.Duration)[name]; d > 0 {
+						time.Sleep(d)
+					}
+				}
+			})
+		},
 		Require: func(tier string) map[string]int64 {
 			return map[string]int64{"messages_on_wire_verified": 2000, "histories_order_checked": 100, "scenarios_with_interleaved_writers": 30, "pongs_written_while_writers_ran": 50, "close_landed_mid_message": 5, "reader_messages_verified": 1000}
 		},
@@ -140,7 +151,115 @@ func c05Gen(tier string, seed int64) []fw.Case {
 		dd := d
 		cases = append(cases, fw.Case{Name: fmt.Sprintf("%s/header-straddles-write-buffer/fit=%d/second=%d", d.Role, d.WriteMax, d.PerW), Desc: dd, Run: func(r *fw.R) { c05Straddle(r, dd) }})
 	}
+	// targeted: Close skips the rest of the FINAL frame a reader is in the middle of, and the transport ends during
+	// that skip; the reader, queued behind Close, gets its turn before the connection is torn down: it must fail
+	// (or deliver a true prefix), never report the clean end of a message it has only partly received
+	for i := 0; i < tierPick(tier, 60, 600); i++ {
+		d := c05Desc{Seed: rng.U64(), Role: bothRoles[i%2], Params: wire.Params{}, Thr: 1 << 20, Closer: "close-skips-final-frame-then-transport-ends", Peer: "raw", Writers: 0, PerW: (i / 2) % 3}
+		dd := d
+		cases = append(cases, fw.Case{Name: fmt.Sprintf("%s/close-skips-final-frame-then-transport-ends/%d", d.Role, d.PerW), Desc: dd, Run: func(r *fw.R) { c05CloseSkipCut(r, dd) }})
+	}
 	return cases
+}
+
+var c05Hold sync.Map // *websocket.Conn -> map[string]time.Duration
+
+func c05CloseSkipCut(r *fw.R, d c05Desc) {
+	r.SetSample(d)
+	setPerturb(d.Seed, 0)
+	c, libEnd, peerEnd, err := libConn(d.Role, d.Params, d.Thr, xport.Plan{}, xport.Plan{})
+	if err != nil {
+		r.Violate("C05/attach-failed", err.Error(), "")
+		return
+	}
+	defer c.CloseNow()
+	defer peerEnd.Close()
+	rng := fw.NewRand(d.Seed)
+	hold := map[string]time.Duration{}
+	if rng.Intn(4) > 0 {
+		hold["Close.handshakeDone"] = time.Duration(1+rng.Intn(3)) * time.Millisecond
+		hold["timeoutLoop.readCtxDone"] = time.Duration(1+rng.Intn(3)) * time.Millisecond
+	}
+	c05Hold.Store(c, hold)
+	defer c05Hold.Delete(c)
+	peer := newRawPeer(peerEnd, d.Role, d.Params, d.Seed)
+	peer.Start()
+	base, cancelAll := context.WithTimeout(context.Background(), 60*time.Second)
+	defer cancelAll()
+	body := tagPayload(1, 0, 600+rng.Intn(3000))
+	var head []byte
+	lastPayload := body
+	if d.PerW == 1 { // the final frame is the last fragment of a fragmented message
+		cut := 16 + rng.Intn(200)
+		head = peer.Mask(wire.Data(wire.OpBinary, false, body[:cut])).Bytes()
+		lastPayload = body[cut:]
+	}
+	op := byte(wire.OpBinary)
+	if head != nil {
+		op = wire.OpCont
+	}
+	last := peer.Mask(wire.Data(op, true, lastPayload)).Bytes()
+	hdrLen := len(last) - len(lastPayload)
+	k := hdrLen + 1 + rng.Intn(len(lastPayload)/2)
+	peer.SendBytes(append(append([]byte(nil), head...), last[:k]...))
+	delivered := len(body) - len(lastPayload) + k - hdrLen
+	what := fmt.Sprintf("%s close-skips-final-frame-then-transport-ends: message of %d bytes, %d delivered before Close", d.Role, len(body), delivered)
+
+	var got []byte
+	var rerr error
+	var ngot atomic.Int64
+	readerDone := make(chan struct{})
+	buf := make([]byte, 1+rng.Intn(300))
+	go func() {
+		defer close(readerDone)
+		_, rd, err := c.Reader(base)
+		if err != nil {
+			rerr = err
+			return
+		}
+		for {
+			n, err := rd.Read(buf)
+			got = append(got, buf[:n]...)
+			ngot.Add(int64(n))
+			if err != nil {
+				rerr = err
+				return
+			}
+		}
+	}()
+	for t0 := time.Now(); time.Since(t0) < 5*time.Second && !(ngot.Load() == int64(delivered) && libEnd.ActiveReads() > 0); {
+		time.Sleep(50 * time.Microsecond)
+	}
+	closeDone := make(chan error, 1)
+	go func() { closeDone <- c.Close(websocket.StatusNormalClosure, "") }()
+	peer.Wait(5*time.Second, func() bool { return peer.Conf.CloseSeen })
+	// a little more of the frame: the parked Read returns, the reader and Close compete for the next turn
+	more := 1 + rng.Intn(min(200, len(last)-k-1))
+	peer.SendBytes(last[k : k+more])
+	time.Sleep(time.Duration(rng.Intn(600)) * time.Microsecond)
+	if d.PerW == 2 {
+		peerEnd.Reset()
+	} else {
+		peerEnd.Close()
+	}
+	select {
+	case <-readerDone:
+	case <-time.After(30 * time.Second):
+		r.Violate("C05/reader-stuck/close-skips-final-frame", what+": the reader did not return within 30 s after the transport had ended", "")
+		return
+	}
+	select {
+	case <-closeDone:
+	case <-time.After(30 * time.Second):
+	}
+	r.Count("closes_that_skip_a_final_frame_cut_short_by_the_transport", 1)
+	r.Key("%s/close-skips-final-frame-then-transport-ends/kind=%d/held=%v/reader-got-more=%v", d.Role, d.PerW, len(hold) > 0, len(got) > delivered)
+	if !bytes.HasPrefix(body, got) {
+		r.Violate("C05/read-not-a-prefix/close-skips-final-frame", fmt.Sprintf("%s: the reader was handed %d bytes that are not a prefix of the message (first difference at %d)", what, len(got), firstDiff(got, body[:min(len(got), len(body))])), "")
+	}
+	if (rerr == nil || rerr == io.EOF) && len(got) < len(body) {
+		r.Violate("C05/clean-end-on-partial-message/close-skips-final-frame", fmt.Sprintf("%s: the reader got %d of %d bytes and then the clean end of the message (%v) although the transport ended inside the final frame", what, len(got), len(body), rerr), "")
+	}
 }
 
 // c05Straddle: a streamed message whose first frame leaves d.WriteMax free bytes in the write buffer; the second
